@@ -142,6 +142,7 @@ Proof.
   - inversion E; subst. simpl in C. inversion C; subst. eapply (HJ t _ _ r' Heql); [reflexivity|exact Hd|exact Hf].
   - eapply jch_other; [exact HJ|exact HP|exact HM|exact E|exact C|exact Hd|exact Hf].
   - destruct (dcb s d); simpl in E; inversion E; subst. discriminate C.
+  - destruct (dcb s d); simpl in E; inversion E; subst. discriminate C.
 Qed.
 
 Lemma JCH_reach s : reachable_from step init s -> JCH s.
